@@ -400,6 +400,35 @@ pub fn run_case(case: &J) -> Vec<J> {
             if freeze {
                 match module.freeze_named(FrozenHeapName::user(&file)) {
                     Ok(fm) => {
+                        // host calls into the frozen module (fresh module + evaluator per call)
+                        for call in unit.get("post_freeze_calls").and_then(|c| c.as_array()).unwrap_or(&Vec::new()) {
+                            let fname = call["fn"].as_str().unwrap_or("main");
+                            match fm.get_owned(fname) {
+                                Err(_) => log(json!(["call", fname, "missing"])),
+                                Ok(of) => Module::with_temp_heap(|m2| {
+                                    let f = of.add_to_heap(m2.heap());
+                                    let mut e2 = Evaluator::new(&m2);
+                                    e2.set_loader(&loader);
+                                    e2.set_print_handler(&printer);
+                                    if let Err(m) = setup_eval(&mut e2, cfg, &cancel) {
+                                        log(json!(["setup_err", m]));
+                                    }
+                                    let heap2 = m2.heap();
+                                    let pos: Vec<Value> = call
+                                        .get("pos")
+                                        .and_then(|p| p.as_array())
+                                        .map(|a| a.iter().map(|x| canon::decode(x, heap2)).collect())
+                                        .unwrap_or_default();
+                                    let r = e2.eval_function(f, &pos, &[]);
+                                    let depth = e2.call_stack_count();
+                                    let ticks = e2.get_total_tick_count();
+                                    match r {
+                                        Ok(v) => log(json!(["call", fname, "ok", canon::encode(v, cfg.sharing), depth, ticks])),
+                                        Err(e) => log(json!(["call", fname, "err", err_json(&e, cfg.full_errors), depth, ticks])),
+                                    }
+                                }),
+                            }
+                        }
                         for n in &snap_names {
                             if let Ok(v) = fm.get_owned(n) {
                                 let mut s = snapshot_json(n, v.as_ref().value());
